@@ -1,5 +1,5 @@
 (* History-level statements for C01, assembled from the state-level lemmas. *)
-From FositeModel Require Import Base.Str Model.Scope Model.Core Model.Flows Proofs.CoreInv Proofs.StepInv Proofs.Family Proofs.Decay.
+From FositeModel Require Import Base.Str Model.Scope Model.Core Model.Flows Proofs.CoreInv Proofs.StepInv Proofs.Family Proofs.Implicit Proofs.Decay.
 
 Lemma redeem_is_step cfg s auth code redirect v vh sm :
   redeem cfg s auth code redirect v vh = step cfg s (ORedeem auth code redirect v vh sm).
@@ -32,20 +32,20 @@ Theorem replay_kills_family cfg cls h1 c cl code redirect v vh k r h2 i e tamper
   let res := redeem cfg s1 (Some c) code redirect v vh in
   o_err (snd res) = "invalid_grant" /\ o_minted (snd res) = [] /\
   (let s2 := run cfg (fst res) h2 in
-   nth_error (log s2) i = Some e -> i_rid e = r_id r -> i_kind e <> KImplicit ->
+   nth_error (log s2) i = Some e -> i_rid e = r_id r ->
    introspect cfg s2 {| p_ref := CRef i; p_tampered := tampered |} hint scopes = None).
 Proof.
   intros s1 Hc Hg Hk Hcode res.
   assert (I1 : Inv s1) by apply Inv_reachable.
-  destruct (replay_kills cfg s1 c cl code redirect v vh k r I1 Hc Hg Hk Hcode) as [He [Hm Hd]].
+  destruct (replay_kills_all cfg s1 c cl code redirect v vh k r I1 Hc Hg Hk Hcode) as [He [Hm Hd]].
   split; [exact He|split; [exact Hm|]].
-  intros s2 Hn Hrid Hkind.
+  intros s2 Hn Hrid.
   assert (I2 : Inv (fst res)).
   { unfold res. rewrite (redeem_is_step _ _ _ _ _ _ _ []). now apply Inv_step. }
   assert (Hlt : r_id r < next_rid (fst res)).
   { pose proof (next_rid_step cfg s1 (ORedeem (Some c) code redirect v vh [])) as Hm'.
     cbn [step] in Hm'. pose proof (proj2 (inv_code_fresh s1 _ _ _ I1 Hcode)). unfold res. lia. }
-  eapply dead_credential_inactive; [apply Inv_run; exact I2|apply dead_run; [exact Hd|exact Hlt]|exact Hn|exact Hrid|exact Hkind].
+  eapply dead_all_credential_inactive; [apply Inv_run; exact I2|apply dead_all_run; [exact Hd|exact Hlt]|exact Hn|exact Hrid].
 Qed.
 
 Theorem replay_spares_other_grants cfg cls h1 c cl code redirect v vh k r i e tampered hint scopes :
